@@ -215,10 +215,19 @@ def audit(ctx, thm_files):
         full = os.path.join(LEANDIR, f)
         names += [n for n, _ in theorems_in(full)]
         mods.append(f[:-5].replace("/", "."))
-    for f in glob.glob(os.path.join(LEANDIR, "VectorModel", "**", "*.lean"), recursive=True):
+    # forbidden tokens in the property's theorem files and everything hand-written they (transitively) import
+    seen, todo = set(), [os.path.join(LEANDIR, f) for f in thm_files]
+    while todo:
+        f = todo.pop()
+        if f in seen or not os.path.exists(f):
+            continue
+        seen.add(f)
+        text = open(f).read()
+        for m in re.findall(r"^import (VectorModel\.\S+)", text, flags=re.M):
+            todo.append(os.path.join(LEANDIR, m.replace(".", "/") + ".lean"))
         if "/Gen/" in f:
             continue
-        for i, line in enumerate(strip_comments(open(f).read()).splitlines(), 1):
+        for i, line in enumerate(strip_comments(text).splitlines(), 1):
             if FORBIDDEN.search(line):
                 problems.append(f"forbidden-token: {os.path.relpath(f, LEANDIR)}:{i}: {line.strip()[:80]}")
     src = "\n".join(f"import {m}" for m in mods) + "\n" + "\n".join(f"#print axioms {n}" for n in names) + "\n"
